@@ -208,6 +208,10 @@ def nondeterminism(ck):
                          found=ast.unparse(s)[:120], required="lists / dicts (insertion ordered) on the output path")
     # ---- C09.8: the XMAP may go to stdout (no -o): nothing else may be written there from the worker processes - their output
     # is flushed when a worker exits, in scheduling order
+    ck.clause("C09.9", "every output file is created afresh (mode 'w'): a repetition of the same command writes the same bytes, not one "
+                       "more copy behind the previous run's (as C08.2)")
+    from . import c08 as _c08
+    _c08._file_naming(ck, rule="C09.9")
     ck.clause("C09.8", "worker processes write nothing to standard output (the XMAP may be written there; worker output arrives in "
                        "scheduling order)")
     n_w = 0
